@@ -388,7 +388,13 @@ fn record_rewrites(
     }
 
     // Update arguments to successor blocks (i.e., PHI args).
+    // A conditional branch can have the same block as both of its successors: that block
+    // is then visited once, and the new arguments are passed in both branches.
+    let mut visited_succs = HashSet::new();
     for BranchToWithArgs { block: succ, .. } in node.successors(context) {
+        if !visited_succs.insert(succ) {
+            continue;
+        }
         let args: Vec<_> = succ.arg_iter(context).copied().collect();
         // For every arg of succ, if it's in phi_to_local,
         // we pass, as arg, the top value of local
@@ -407,8 +413,28 @@ fn record_rewrites(
                 };
 
                 modified = true;
-                let params = node.get_succ_params_mut(context, &succ).unwrap();
-                params.push(new_val);
+                match node.get_terminator_mut(context) {
+                    Some(Instruction {
+                        op:
+                            InstOp::ConditionalBranch {
+                                true_block,
+                                false_block,
+                                ..
+                            },
+                        ..
+                    }) => {
+                        if true_block.block == succ {
+                            true_block.args.push(new_val);
+                        }
+                        if false_block.block == succ {
+                            false_block.args.push(new_val);
+                        }
+                    }
+                    _ => {
+                        let params = node.get_succ_params_mut(context, &succ).unwrap();
+                        params.push(new_val);
+                    }
+                }
             }
         }
     }
